@@ -15,6 +15,7 @@ pub mod c15;
 pub mod c16;
 pub mod c17;
 pub mod c18;
+pub mod c19;
 
 use crate::core::Report;
 
@@ -37,6 +38,7 @@ pub fn dispatch(p: &str, rep: &mut Report) -> bool {
         "C16" => c16::run(rep),
         "C17" => c17::run(rep),
         "C18" => c18::run(rep),
+        "C19" => c19::run(rep),
         _ => return false,
     }
     true
